@@ -1516,6 +1516,23 @@ func partRpmSqlite(r *hx.Rand, o lyOpts) lyPart {
 	if o.wellFormed {
 		c = 2
 	}
+	if base := sqliteBase(r); base != nil && (o.wellFormed || r.Chance(2, 3)) {
+		// a real database written by SQLite, well-formed or with one to three
+		// fields of the file format changed
+		b, m = base, "sqlite-real"
+		if !o.wellFormed && r.Chance(5, 6) {
+			for k, n := 0, 1+r.Intn(3); k < n; k++ {
+				var how string
+				if r.Chance(1, 6) {
+					b, how = mutateBytes(r, b)
+				} else {
+					b, how = mutateSqlite(r, b)
+				}
+				m += "+" + how
+			}
+		}
+		return lyPart{kind: "rpm-sqlite", muts: []string{m}, files: []lyFile{{name: lyPick(r, "var/lib/rpm/", "usr/lib/sysimage/rpm/") + "rpmdb.sqlite", body: b}}}
+	}
 	switch c {
 	case 0:
 		b, m = []byte("SQLite format 3\x00"), "sqlite-magic-only"
@@ -1575,7 +1592,7 @@ var partGens = []partGen{
 	{"gobin-exe", 0, partGobinExe},
 	{"rpm-bdb", 7, partRpmBdb},
 	{"rpm-ndb", 7, partRpmNdb},
-	{"rpm-sqlite", 3, partRpmSqlite},
+	{"rpm-sqlite", 6, partRpmSqlite},
 	{"pkgconfig", 3, partPkgconfig},
 }
 
